@@ -2,7 +2,7 @@
    json_loads / json_encode, and the model satisfies the checker. *)
 From Coq Require Import List ZArith NArith Bool Lia.
 Import ListNotations.
-From TV Require Import Lib.Obs Lib.C21_Utf8 Lib.C21_Pct C21.Model C21.Run C21.Proofs C21.Proofs2 C21.Proofs3 C21.Proofs4.
+From TV Require Import Lib.Obs Lib.C21_Utf8 Lib.C21_Pct C21.Model C21.Run C21.Proofs C21.Proofs2 C21.Proofs3 C21.Proofs4 C21.Proofs7.
 Local Open Scope N_scope.
 
 (* the fuel json_loads supplies is enough *)
@@ -67,4 +67,5 @@ Proof.
   - apply check_utf8.
   - apply check_touni.
   - apply check_qsrt. exact Hwf.
+  - apply check_qsraw. exact Hwf.
 Qed.
